@@ -274,5 +274,14 @@ Definition col_stats_ok (c : column) (o : observation) : bool :=
   | _, _ => false
   end.
 
-Definition update_col_stats_ok (widths : list nat) (dims : list Z) : bool :=
-  list_eqb Z.eqb (map Z.of_nat (update_emb_dims (emb_offsets widths))) dims.
+(* `offs` is the offset tensor of the materialized (merged) embedding feature, `widths` the
+   widths of its columns as read cell by cell, `dims` the EMB_DIM statistics in name order *)
+Definition update_col_stats_ok (offs widths : list nat) (dims : list Z) : bool :=
+  list_eqb Z.eqb (map Z.of_nat (update_emb_dims offs)) dims
+  && list_eqb Nat.eqb offs (emb_offsets widths).
+
+(* the binary-target re-sort evaluated on a frequency order: `o` is any valid frequency order of
+   the column (built by the harness from the raw cells), the statistics must be its re-sort *)
+Definition target_resort_ok (o : list (Z * nat)) (observed : list (Z * nat)) : bool :=
+  list_eqb (fun a b => Z.eqb (fst a) (fst b) && Nat.eqb (snd a) (snd b)) (target_resort o) observed
+  || negb (length o =? 2)%nat.
